@@ -1,7 +1,11 @@
 package gen
 
 import (
+	"bytes"
+	"crypto/x509"
+	"encoding/hex"
 	"fmt"
+	"math/big"
 	"strings"
 	"time"
 )
@@ -21,6 +25,9 @@ type Fault struct {
 	GetterOnly bool
 	// EditsQuote: the pre-build part changes quote fields (the world must be built afterwards)
 	EditsQuote bool
+	// Unjudged: the statement does not say whether such a world is accepted; it is used for relations between runs
+	// (monotonicity, history independence) only
+	Unjudged bool
 }
 
 // Faults is the catalogue shared by the option-gating and event-log checks.
@@ -121,6 +128,18 @@ var Faults = []Fault{
 		signer := MakeCert(CertSpec{CN: CNTcbSigner, KeyLabel: "fault/look-alike-signer", Serial: w.PKI.QeSig.X.SerialNumber.Bytes(), NotBefore: Wide.NotBefore, NotAfter: Wide.NotAfter, CRLDP: w.PKI.Spec.RootCRLDP}, fake)
 		w.Resp[QeIdentityURL] = Response{Header: map[string][]string{HdrQeID: {IssuerChainHeader(signer, fake)}}, Body: SignedBody("enclaveIdentity", w.QeID.Render(), signer.Key)}
 	}, MinLevel: LvlColl},
+	{Name: "tcbinfo-signature-member-missing", Post: func(w *World) {
+		// the response carries the (genuine) document and no signature member at all
+		u := TcbInfoURL(w.FmspcHex())
+		r := w.Resp[u]
+		r.Body = []byte(`{"tcbInfo":` + string(w.TcbInfo.Render()) + `}`)
+		w.Resp[u] = r
+	}, MinLevel: LvlColl},
+	{Name: "qeid-signature-member-null", Post: func(w *World) {
+		r := w.Resp[QeIdentityURL]
+		r.Body = []byte(`{"enclaveIdentity":` + string(w.QeID.Render()) + `,"signature":null}`)
+		w.Resp[QeIdentityURL] = r
+	}, MinLevel: LvlColl},
 	{Name: "issuer-chain-header-only-under-two-other-spellings", Post: func(w *World) {
 		// no header under the canonical name; the genuine chain under an all-lower-case name and a foreign chain under
 		// an all-upper-case name: whichever a tolerant lookup would pick, it must pick the same one every time
@@ -202,6 +221,44 @@ var Faults = []Fault{
 		w.Raw = q.Encode()
 		w.PoolExtra = []*Cert{w.PKI.Int}
 	}, MinLevel: LvlBase},
+	{Name: "leaf-revoked-with-an-entry-dated-after-the-verification-time", Pre: func(w *World) {
+		// the date of a CRL entry says when the CA learnt of the compromise, not from when the serial counts as revoked
+		w.BuildLeaf()
+		for len(w.PckCrl.RevokedAt) < len(w.PckCrl.Revoked) {
+			w.PckCrl.RevokedAt = append(w.PckCrl.RevokedAt, time.Time{})
+		}
+		w.PckCrl.Revoked = append(w.PckCrl.Revoked, w.Leaf.X.SerialNumber.Bytes())
+		w.PckCrl.RevokedAt = append(w.PckCrl.RevokedAt, w.Times.PckCrl.Add(48*time.Hour).Truncate(time.Second))
+	}, MinLevel: LvlCRL},
+	{Name: "intermediate-revoked-with-an-entry-dated-after-the-verification-time", Pre: func(w *World) {
+		for len(w.RootCrl.RevokedAt) < len(w.RootCrl.Revoked) {
+			w.RootCrl.RevokedAt = append(w.RootCrl.RevokedAt, time.Time{})
+		}
+		w.RootCrl.Revoked = append(w.RootCrl.Revoked, w.PKI.Int.X.SerialNumber.Bytes())
+		w.RootCrl.RevokedAt = append(w.RootCrl.RevokedAt, w.Times.RootCaCrl.Add(time.Hour).Truncate(time.Second))
+	}, MinLevel: LvlCRL},
+	{Name: "signed-tcbinfo-lacks-the-module-identities-an-unsigned-twin-supplies-them", Pre: func(w *World) {
+		if w.Q.TeeTcbSvn[1] == 0 {
+			w.Q.TeeTcbSvn[1] = 1
+			w.HonestCollateral()
+		}
+	}, Post: func(w *World) {
+		// the genuinely signed TCB Info has the older layout without tdxModuleIdentities; an unsigned member of the same
+		// response, spelled TCBINFO, carries the full document. The quote's module version needs an identity: there is
+		// none in what Intel signed.
+		full := w.TcbInfo.Render()
+		signed := append([]byte{}, full...)
+		if i := bytes.Index(signed, []byte(`"tdxModuleIdentities":[`)); i >= 0 {
+			if j := bytes.Index(signed[i:], []byte(`],"tcbLevels":[`)); j >= 0 {
+				signed = append(append([]byte{}, signed[:i]...), signed[i+j+2:]...) // the member is ABSENT from what is signed
+			}
+		}
+		sig := hex.EncodeToString(w.PKI.TcbSig.Key.SignRaw(signed))
+		u := TcbInfoURL(w.FmspcHex())
+		r := w.Resp[u]
+		r.Body = []byte(`{"TCBINFO":` + string(full) + `,"tcbInfo":` + string(signed) + `,"signature":"` + sig + `"}`)
+		w.Resp[u] = r
+	}, MinLevel: LvlColl, EditsQuote: true},
 	{Name: "tcb-signer-revoked", Pre: func(w *World) {
 		w.RootCrl.Revoked = append(w.RootCrl.Revoked, w.PKI.TcbSig.X.SerialNumber.Bytes())
 	}, MinLevel: LvlCRL},
@@ -238,4 +295,29 @@ func (f Fault) RejectedAt(l Level) bool {
 		return false
 	}
 	return l >= f.MinLevel
+}
+
+// RelationOnlyFaults are worlds the statement does not classify (accepted or not): they serve the relations between
+// runs - monotonicity across levels, independence of history - only.
+var RelationOnlyFaults = []Fault{
+	{Name: "tcbinfo-header-root-is-an-odd-edition-of-the-trusted-root", Post: func(w *World) {
+		// the issuer chain of the TCB Info ends in a certificate that carries the trusted root's name and key and is
+		// signed with that key - under ECDSA with SHA-384 (the PKI uses SHA-256 throughout), another serial number. It is
+		// not the certificate the relying party trusts; whatever a verifier makes of it, it makes the same of it at every level.
+		tmpl := *w.PKI.Root.X
+		tmpl.SignatureAlgorithm = x509.ECDSAWithSHA384
+		tmpl.SerialNumber = big.NewInt(0x384384)
+		der, err := x509.CreateCertificate(nil, &tmpl, &tmpl, &w.PKI.Root.Key.Pub, w.PKI.Root.Key)
+		if err != nil {
+			return
+		}
+		odd, err := CertFromDER(der, w.PKI.Root.Key)
+		if err != nil {
+			return
+		}
+		u := TcbInfoURL(w.FmspcHex())
+		r := w.Resp[u]
+		r.Header = map[string][]string{HdrTcbInfo: {IssuerChainHeader(w.PKI.TcbSig, odd)}}
+		w.Resp[u] = r
+	}, MinLevel: LvlColl, Benign: false, Unjudged: true},
 }
